@@ -60,6 +60,24 @@ pub(crate) fn decompress_merkle_proofs<F: RichField, H: Hasher<F>>(
     height: usize,
     cap_height: usize,
 ) -> Vec<MerkleProof<F, H>> {
+    try_decompress_merkle_proofs(
+        leaves_data,
+        leaves_indices,
+        compressed_proofs,
+        height,
+        cap_height,
+    )
+    .expect("Malformed compressed Merkle proofs.")
+}
+
+/// Like `decompress_merkle_proofs`, but returns an error if a sibling is missing or left over.
+pub(crate) fn try_decompress_merkle_proofs<F: RichField, H: Hasher<F>>(
+    leaves_data: &[Vec<F>],
+    leaves_indices: &[usize],
+    compressed_proofs: &[MerkleProof<F, H>],
+    height: usize,
+    cap_height: usize,
+) -> anyhow::Result<Vec<MerkleProof<F, H>>> {
     let num_leaves = 1 << height;
     let compressed_proofs = compressed_proofs.to_vec();
     let mut decompressed_proofs = Vec::with_capacity(compressed_proofs.len());
@@ -82,9 +100,16 @@ pub(crate) fn decompress_merkle_proofs<F: RichField, H: Hasher<F>>(
             let index = (i + num_leaves) >> layer_height;
             let current_hash = seen[&index];
             let sibling_index = index ^ 1;
-            let sibling_hash = *seen
-                .entry(sibling_index)
-                .or_insert_with(|| *p.next().unwrap());
+            let sibling_hash = match seen.get(&sibling_index) {
+                Some(&h) => h,
+                None => {
+                    let h = *p
+                        .next()
+                        .ok_or_else(|| anyhow::anyhow!("Missing sibling in compressed Merkle proof."))?;
+                    seen.insert(sibling_index, h);
+                    h
+                }
+            };
             let parent_hash = if index.is_even() {
                 H::two_to_one(current_hash, sibling_hash)
             } else {
@@ -108,8 +133,19 @@ pub(crate) fn decompress_merkle_proofs<F: RichField, H: Hasher<F>>(
 
         decompressed_proofs.push(decompressed_proof);
     }
+    // Every sibling must have been consumed. A repeated index carries a copy of the proof of its
+    // first occurrence, which is never read, so only first occurrences are checked.
+    let mut first_occurrences = hashbrown::HashSet::new();
+    for (&i, p) in leaves_indices.iter().zip(siblings.iter_mut()) {
+        if first_occurrences.insert(i) {
+            anyhow::ensure!(
+                p.next().is_none(),
+                "Surplus sibling in compressed Merkle proof."
+            );
+        }
+    }
 
-    decompressed_proofs
+    Ok(decompressed_proofs)
 }
 
 #[cfg(test)]
